@@ -3,7 +3,7 @@ reservations, strictness producers, varint tables."""
 import re
 
 from mirlib import AnchorMissing, op_place, path_matches, is_bare, place_projs, const_int
-from helpers import (store_overlay, vexpr, try_edges, ok_dominates, must_pass, branches_on_call, bool_branches, enum_switches, edge_region,
+from helpers import (store_overlay, body_calls, closures_of, vexpr, try_edges, ok_dominates, must_pass, branches_on_call, bool_branches, enum_switches, edge_region,
                      aggregates, field_accesses, arm, origin_calls)
 
 SI = "slice_codec::buffer::slice::SliceInputSource<'_> as slice_codec::buffer::InputSource>::"
@@ -828,7 +828,7 @@ def r_size_prefix(r, prog):
         if not es:
             continue
         pairs += 1
-        body = [c for c in f.calls() if c.name() in ('encode', 'write_bytes_exact')]
+        body = body_calls(prog, f, ('encode', 'write_bytes_exact'))
         size = vexpr(f, es[0].args[-1])
         if re.match(r'^len\(arg1\)$', size) and body and all(ok_dominates(f, es[0], c.bb) for c in body):
             r.ok('%s: encode_size(self.len()) first, elements after it succeeded' % f.path)
